@@ -129,6 +129,17 @@ CHECKS = {
              'of every value, distinctness, read-back round trip and per-state grouping are decided by the search on real clingo answer sets '
              '(~220 per quick run) and real telingo traces, i.e. sampled, not proved. Genuine defect F9 repaired by a fix: commit; F26 known finding.',
         design='DESIGN.md §6 C15'),
+    'C08': dict(
+        technique='Lean 4 proof about an executable model of origin comparison and key-driven linking + correspondence with the real linker; position-map search on real outputs',
+        text='Lean theorems: is_same_origin identifies only origins with the same innermost concept (for any name equality); a link step writes '
+             'one value into at most one position of the searched atom and into the linked attribute, and the written position was null, has the '
+             'linked attribute\'s name and a compatible origin; the invariant "an invented variable is held only by positions with one (attribute, '
+             'innermost concept) key" is preserved by every link step and hence by any sequence of relations.',
+        note='Trusted: Lean kernel; unit correspondence (the real AttributeOrigin.__eq__ / is_same_origin on 600 chain pairs and the real '
+             '_link_two_atoms on 400 generated atom pairs per quick run, compared up to the spelling of fresh names); freshness of invented names '
+             'is C07\'s theorem. The connection between the abstract invariant and whole compilations (which positions a relation links) is '
+             'checked by the search over every rule of corpus / wide-generator outputs, not proved.',
+        design='DESIGN.md §6 C08'),
 }
 
 NOT_YET = {}
